@@ -1,5 +1,6 @@
 (* C07 — property theorems only. *)
 From Coq Require Import List Bool NArith ZArith String Ascii.
+From V Require Import C07.Exact.
 From V Require Import Base.FS C07.Model C07.Spec C07.Proofs.
 From V Require Import Extracted.WriteSites.
 Import ListNotations.
@@ -67,6 +68,21 @@ Theorem finalize_exact_partial : forall u ts e ss,
        get (run_u ss u) q = get u q).
 Proof. exact entry_exact_lemma. Qed.
 Print Assumptions finalize_exact_partial.
+
+(* The whole pending list: with distinct destinations, none a backup name of another, and distinct temporary
+   files, every destination holds exactly what was written for it, every replaced file is kept byte for byte under
+   the first backup name that was free before finalisation started, and nothing else changes. *)
+Theorem finalize_exact : forall es u ts ss,
+  NoDup (map e_path es) -> noclash (map e_path es) -> NoDup (map e_tmp es) ->
+  fin_steps u ts es = Some ss ->
+  (forall e, In e es -> exists c, tget ts (e_tmp e) = Some c /\
+     get (run_u ss u) (e_path e) =
+       Some (if write_kind (e_mode e) then c else match get u (e_path e) with Some o => (o ++ c)%string | None => c end)) /\
+  (forall e o, In e es -> write_kind (e_mode e) = true -> get u (e_path e) = Some o ->
+     exists q, backup_of u e q /\ get (run_u ss u) q = Some o) /\
+  (forall q, ~ In q (map e_path es) -> (forall e, In e es -> ~ backup_of u e q) -> get (run_u ss u) q = get u q).
+Proof. exact finalize_exact_lemma. Qed.
+Print Assumptions finalize_exact.
 
 (* martinize2 finalises only when no warning is left, and otherwise exits with 2
    without finalising. *)
